@@ -12,7 +12,7 @@ SQ = "chartparse.instrument.StarPowerEvent.ParsedData"
 BQ = "chartparse.sync.BPMEvent.ParsedData"
 
 
-def check_chain(ctx, r, which, strict=True, recognisers=(), safe_skip=True, only=("canon", "capture", "groups")):
+def check_chain(ctx, r, which, strict=True, recognisers=(), safe_skip=True, only=("canon", "capture", "groups", "upper")):
     """which: 'instrument' | 'sync' | 'global' | 'song' | 'all'.
     recognisers: line kinds whose every canonical line the calling property observes (a canonical line dropped as unparsable, or
     decoded to other integers, changes what the property talks about): acceptance of the canonical language, capture
